@@ -680,7 +680,7 @@ func (fc *FnCtx) execCall(st *State, in ssa.Instruction, c *ssa.CallCommon, resT
 			}
 		}
 	}
-	if !handled && con != nil && (len(con.Ensures) > 0 || len(con.Requires) > 0 || con.Modifies != nil || con.Pure) {
+	if !handled && con != nil && (len(con.Ensures) > 0 || len(con.Requires) > 0 || con.Modifies != nil || con.Pure || len(con.Sets) > 0 || len(con.Effects) > 0) {
 		res = fc.applyContract(st, in, c, callee, con, key, args, resT)
 		handled = true
 	}
